@@ -98,6 +98,7 @@ impl Clone for Event { #[verifier::external_body] fn clone(&self) -> (r: Self) e
 // value of an attribute given as &Addr / &str / String: uninterpreted text of the argument
 pub trait AttrVal { spec fn text(&self) -> Seq<char>; }
 impl AttrVal for &Addr { open spec fn text(&self) -> Seq<char> { self.s@ } }
+impl AttrVal for Addr { open spec fn text(&self) -> Seq<char> { self.s@ } }
 impl AttrVal for &str { open spec fn text(&self) -> Seq<char> { self@ } }
 impl AttrVal for String { open spec fn text(&self) -> Seq<char> { self@ } }
 impl AttrVal for &String { open spec fn text(&self) -> Seq<char> { self@ } }
